@@ -213,4 +213,48 @@ theorem C01_image_aliases (d : DumpIn) (k : Nat) (t : DThread) (hk : d.threads[k
     have := Image_exception_listed d k t hk ht hl
     exact ⟨_, _, _, this.2.1⟩
 
+
+/-- **C01 (image: module references).** the CodeView and name locations stored in module `k`'s record designate the
+    identifier record and the name string -/
+theorem C01_image_module_refs (d : DumpIn) (k : Nat) (m : DModule) (hk : d.modules[k]? = some m) :
+    let cnt := (acc1 d).pos + (moduleBlobs d.modules).length
+    (dumpAcc d).dir[1]? = some ⟨ST_MODULE_LIST, 4 + 108 * d.modules.length, cnt⟩ ∧
+    At (dumpBytes d) cnt (le 4 d.modules.length) ∧
+    At (dumpBytes d) (cnt + 4 + 108 * k) (moduleRec (modulePos d k) m) ∧
+    At (dumpBytes d) (modulePos d k) m.cv ∧
+    At (dumpBytes d) (modulePos d k + m.cv.length) (mdStr m.name) := Image_module d k m hk
+
+/-- **C01 (image: OS version string).** -/
+theorem C01_image_os_version (d : DumpIn) :
+    At (dumpBytes d) (acc5 d).pos (serSysInfo d.sys ((acc5 d).pos + 56)) ∧
+    At (dumpBytes d) ((acc5 d).pos + 56) (mdStr d.sys.os) := Image_sysinfo d
+
+/-- **C01 (image: handle names).** -/
+theorem C01_image_handle_refs (d : DumpIn) (hs : List DHandle) (hok : d.handles = .ok hs) (k : Nat) (h : DHandle)
+    (hk : hs[k]? = some h) :
+    let pos := (acc17 d).pos
+    let q := pos + sumLen (fun x : DHandle => (mdStr x.name).length) (hs.take k)
+    let hdr := pos + (handleNames hs).length
+    At (dumpBytes d) hdr (le 4 16 ++ le 4 32 ++ le 4 hs.length ++ le 4 0) ∧
+    At (dumpBytes d) (hdr + 16 + 32 * k) (le 8 h.fd ++ le 4 0 ++ le 4 q ++ le 4 h.attrs ++ le 4 0 ++ le 4 0 ++ le 4 0) ∧
+    At (dumpBytes d) q (mdStr h.name) := Image_handle d hs hok k h hk
+
+/-- **C01 (image: link-map names).** -/
+theorem C01_image_link_map_refs (d : DumpIn) (x : DDso) (hok : d.dso = .ok x) (hne : x.maps ≠ []) (k : Nat) (m : DLinkMap)
+    (hk : x.maps[k]? = some m) :
+    let pos := (acc14 d).pos
+    let q := pos + 20 * x.maps.length + sumLen (fun y : DLinkMap => (mdStr y.name).length) (x.maps.take k)
+    At (dumpBytes d) (pos + 20 * k) (le 8 m.addr ++ le 4 q ++ le 8 m.ld) ∧
+    At (dumpBytes d) q (mdStr m.name) ∧
+    At (dumpBytes d) (pos + (dsoPrefix pos x).length) (serDsoDebug pos x ++ x.dyn) := Image_link_map d x hok hne k m hk
+
+/-- Non-vacuity: a small content record (two threads, one with a stack, a module with an identifier, an application
+    region, a name) whose image the model builds and whose header decodes. -/
+example :
+    let d : DumpIn := ⟨18, 7, [⟨5, 0x1000, some (0x1000, [1, 2, 3]), none, List.replicate 1232 0, 9⟩, ⟨6, 0x2000, none, none, List.replicate 1232 0, 0⟩],
+      5, none, [], [⟨0x400000, 0x1000, [1, 2], [97], none⟩], [(0x5000, [9, 9])],
+      ⟨9, 6, 1, 4, 0x8201, [], [76]⟩, [], none, none, none, none, none, none, none, .failed [], none, [(5, [97])], .failed [], some [91, 93]⟩
+    (dumpAcc d).dir.length = 18 ∧ (dumpBytes d).length = 32 + 216 + (dumpAcc d).bytes.length := by
+  decide +kernel
+
 end Mdw
